@@ -408,9 +408,49 @@ func genTracerCase(r *Rng, em *Emitter, length int, al *tracerAlphabet) {
 				g := regs[pick(len(regs))]
 				a, s, o, t = g.a, g.s, g.o, g.t
 			}
+			// C10 specification, stated on the implementation alone (it is theorem c10_list_law for the model): an accepted change
+			// under call index i appends v to the list of i unless that list ends with v; every other list stays as it was
+			snap := func() map[uint64][]string {
+				c, e := it.t.StateChanges().Slot(a, s, o, t)
+				if e != nil || c == nil {
+					return nil
+				}
+				m := map[uint64][]string{}
+				for i, l := range c.Changes() {
+					for _, x := range l {
+						m[i] = append(m[i], hexBytes(x))
+					}
+				}
+				return m
+			}
+			before, idx := snap(), it.t.CurrentCallIndex()
 			err := it.t.SaveStateChange(a, s, o, t, v)
 			em.Op("C11,C10", fmt.Sprintf("T change %s %s %s %s %s", hexAddr(a), optU(s), optU(o), hexHash(t), hexBytes(v)), okErr(err))
 			em.Count("change:" + okErr(err))
+			if err == nil {
+				after, verdict := snap(), "ok"
+				want := append([]string{}, before[idx]...)
+				if len(want) == 0 || want[len(want)-1] != hexBytes(v) {
+					want = append(want, hexBytes(v))
+				}
+				if after == nil {
+					verdict = "accepted_change_not_visible_by_slot"
+				} else if strings.Join(after[idx], ",") != strings.Join(want, ",") {
+					verdict = fmt.Sprintf("call_%d_has_%s_want_%s", idx, listStr(after[idx]), listStr(want))
+				} else {
+					for i, l := range before {
+						if i != idx && strings.Join(after[i], ",") != strings.Join(l, ",") {
+							verdict = fmt.Sprintf("list_of_other_call_%d_changed", i)
+						}
+					}
+					for i := range after {
+						if _, ok := before[i]; !ok && i != idx {
+							verdict = fmt.Sprintf("list_of_other_call_%d_appeared", i)
+						}
+					}
+				}
+				em.Op("C10", "S attributed", verdict)
+			}
 		case k < 82: // enter call
 			from, to := acct(), acct()
 			var top *common.Address
